@@ -405,7 +405,7 @@ pub fn closedinj(seed: u64, out: &mut Outcome) {
                 let what = if action <= 3 { "only datagrams without valid packet protection were injected afterwards" } else { "a packet of its peer with non-zero reserved header bits arrived afterwards" };
                 sim.fail(key, format!("node {node} closed locally (code {code}); {what}, yet it polled {lost:?}"));
             }
-            if acted_at.is_some() && action != 3 && Some(ch) == w.ch[node] && sim.snap(node, ch).state != "drained" {
+            if acted_at.is_some() && action != 3 && Some(ch) == w.ch[node] && (sim.snap(node, ch).state != "drained" || sim.nodes[node].conns[&ch].obs.drained_events == 0) {
                 sim.fail("drain-never", format!("node {node} conn {ch} still {} at the end (action {action})", sim.snap(node, ch).state));
             }
             if (action == 7 || action == 8) && auth_sent > 0 && node == 1 - hostile_side && Some(ch) == w.ch[node] {
